@@ -234,6 +234,15 @@ func (m *membership) universalIDByPartyID(id PartyID) UniversalID {
 	return m.pID2UID[id]
 }
 
+// sessionNodes maps each party to the node that represents it among the given participants of a session
+func (m *membership) sessionNodes(participants []UniversalID) map[PartyID]UniversalID {
+	res := make(map[PartyID]UniversalID)
+	for _, uID := range participants {
+		res[m.partyIDByUniversalID(uID)] = uID
+	}
+	return res
+}
+
 func computeMembership(mapping map[UniversalID]PartyID) *membership {
 	protocol2universal := make(map[PartyID]UniversalID)
 	universal2Protocol := make(map[UniversalID]PartyID)
@@ -314,7 +323,7 @@ func (s *Scheme) runDKG(ctx context.Context, membership *membership, dkgProtocol
 
 		s.Logger.Debugf("Running keygen with parties %v", members)
 
-		if err := s.initializeDKG(dkgProtocolInstance, t, UIntsToUniversalIDs(members), membership); err != nil {
+		if err := s.initializeDKG(dkgProtocolInstance, t, parties, UIntsToUniversalIDs(members), membership); err != nil {
 			s.Logger.Errorf("Failed initializing DKG: %v", err)
 			resultChan <- mpcResult{err: err}
 			return
@@ -615,7 +624,8 @@ func (s *Scheme) prepareSigning(ctx context.Context, membership *membership, par
 	}, func(m interface{}, from uint16) {
 		msg := m.(*rbcMsg)
 		s.Logger.Debugf("Got round %d message from %d", msg.round, from)
-		signingProtocol.OnMsg(msg.payload, from, msg.broadcast)
+		sourceParty := uint16(membership.partyIDByUniversalID(UniversalID(from)))
+		signingProtocol.OnMsg(msg.payload, sourceParty, msg.broadcast)
 	}, len(signers))
 
 	rbc = &rbcFilter{
@@ -647,12 +657,13 @@ func (s *Scheme) prepareSigning(ctx context.Context, membership *membership, par
 	return signingProtocol, signingProtocol.SetShareData(s.StoredData)
 }
 
-func (s *Scheme) initializeDKG(dkg KeyGenerator, threshold int, members []UniversalID, membership *membership) error {
+func (s *Scheme) initializeDKG(dkg KeyGenerator, threshold int, parties []PartyID, members []UniversalID, membership *membership) error {
 	membersWithoutMe := excludeUniversal(members, s.SelfID)
+	nodeOfParty := membership.sessionNodes(members)
 
 	dkgTopicHash := hash([]byte(DkgTopicName))
 
-	dkg.Init(universalIDsToUInts(members), threshold, func(msg []byte, isBroadcast bool, to uint16) {
+	dkg.Init(partyIDsToUInts(parties), threshold, func(msg []byte, isBroadcast bool, to uint16) {
 		var payload []byte
 		payload = append(payload, 255)
 		payload = append(payload, msg...)
@@ -660,7 +671,12 @@ func (s *Scheme) initializeDKG(dkg KeyGenerator, threshold int, members []Univer
 			s.Send(uint8(MsgTypeMPC), dkgTopicHash, payload, membersWithoutMe...)
 			return
 		}
-		s.Send(uint8(MsgTypeMPC), dkgTopicHash, payload, membership.universalIDByPartyID(PartyID(to)))
+		dst, exists := nodeOfParty[PartyID(to)]
+		if !exists {
+			s.Logger.Warnf("Party %d does not participate in the DKG, dropping message to it", to)
+			return
+		}
+		s.Send(uint8(MsgTypeMPC), dkgTopicHash, payload, dst)
 	})
 
 	return nil
@@ -674,6 +690,7 @@ func (s *Scheme) initializeThresholdSigning(membership *membership, parties []Pa
 	}
 
 	membersWithoutMe := excludeUniversal(signers, s.SelfID)
+	nodeOfParty := membership.sessionNodes(signers)
 
 	signer.Init(partyIDsToUInts(parties), s.Threshold, func(msg []byte, isBroadcast bool, to uint16) {
 		var payload []byte
@@ -683,7 +700,12 @@ func (s *Scheme) initializeThresholdSigning(membership *membership, parties []Pa
 			s.Send(uint8(MsgTypeMPC), topicHash, payload, membersWithoutMe...)
 			return
 		}
-		s.Send(uint8(MsgTypeMPC), topicHash, payload, membership.universalIDByPartyID(PartyID(to)))
+		dst, exists := nodeOfParty[PartyID(to)]
+		if !exists {
+			s.Logger.Warnf("Party %d does not participate in the signing, dropping message to it", to)
+			return
+		}
+		s.Send(uint8(MsgTypeMPC), topicHash, payload, dst)
 	})
 
 	return signer, nil
